@@ -90,7 +90,7 @@ CHECKS = {
         assumptions=["prices are declared with at most 8 decimals and are positive (the statement does not say what a longer or negative price means)",
                      "CLI: declarations of one journal get pairwise different dates (same-day order is not part of the statement)",
                      "the reciprocal may be either neighbouring 8-decimal value when the exact quotient lies within 1e-16 below a boundary"],
-        quick=dict(tests=[dict(name="TestC12", cases=60000), dict(name="TestC12CLI", cases=1600)]),
+        quick=dict(tests=[dict(name="TestC12", cases=60000), dict(name="TestC12CLI", cases=6400)]),
         thorough=dict(tests=[dict(name="TestC12", cases=6000000), dict(name="TestC12CLI", cases=100000)]),
     ),
     "C03": dict(
